@@ -23,7 +23,7 @@ FOREIGN_ATTR = "zzForeignAttr"
 UNLISTED_VAL = "zzUnlistedValue"
 
 
-def one_state(a, seed, fname):
+def one_state(a, seed, fname, unlisted=None):
     from metapype.model.node import Node
     from metapype.eml.exceptions import MetapypeRuleError
     rules, dfas, elem = G["rules"], G["dfas"], G["elem"]
@@ -53,7 +53,7 @@ def one_state(a, seed, fname):
                 if len(listed) > 1:
                     pool += [", ".join(listed[:2]), listed[0] + listed[1]]
                 pool = [x for x in pool if x not in listed]
-                v = rnd.choice(pool)
+                v = rnd.choice(pool) if unlisted is None else unlisted[0]
             want[name] = v
         order = list(want.items())
         rnd.shuffle(order)
@@ -106,6 +106,12 @@ def w_states(items):
             n_, out_ = one_state(a, seed, fname)
             n += n_
             out += out_
+        # the one unlisted value realised by values that are not strings at all (a JSON model may carry false, 0, 1, null)
+        if any(v == "~unlisted" for v in a["asg"].values()):
+            for typed in (False, True, 0, 1, 0.0, None, ()):
+                n_, out_ = one_state(a, seed, FOREIGN_ATTR, unlisted=(typed,))
+                n += n_
+                out += out_
     # several nodes of one rule - including the same assignment twice - validated by ONE validate.tree walk into ONE list:
     # one error per violated constraint PER NODE, whatever the list already holds
     by_unit = {}
